@@ -2076,7 +2076,9 @@ class _ChunkedTransferDecoder:
                 + len(self._buffer)
                 + (1 if self._buffer.endswith(b"\r") else 2)
             )
-            if minTrailerSize > self._maxTrailerHeadersSize:
+            if self._buffer != b"\r" and minTrailerSize > self._maxTrailerHeadersSize:
+                # (A lone CR can only be the first half of the CRLF that ends
+                # the trailer section, which does not count.)
                 raise _MalformedChunkedDataError("Trailer headers data is too long.")
             # Continue processing more data.
             return False
